@@ -88,3 +88,43 @@ Theorem C04_rings_closed :
   forall (N : Num) (r : FillQueue.ring N) (h : pt N) (t : list (pt N)),
   close_ring r = h :: t -> t <> nil -> pt_eq h (last t h) = true \/ last t h = h.
 Proof. exact close_ring_closed. Qed.
+
+(** FIRST CLAUSE, exact instance, every pair of operands with finite coordinates, every
+    operation whose sweep runs to completion (Union, Xor, or any operation with the early exit
+    disabled): every ring of the result is the closed form ([close()]) of a contour all of whose
+    consecutive point pairs lie on ONE edge of one of the operands ([ops_edges]: the edges
+    [fill_queue] walks).  Not covered: the last-to-first edge that [close()] appends when the
+    walk did not close the contour itself, and runs cut short by the early exit. *)
+From Coq Require Import QArith.
+From GB Require Import NumQ OnEdge SweepClosure ResultEdges Coverage ExactSweep.
+Theorem C04_result_edges_lie_on_input_edges :
+  forall (A B : list (FillQueue.polygon NQ)),
+  (forall P, In P A -> finite_poly P) -> (forall P, In P B -> finite_poly P) ->
+  forall (cfg : config) (fuel : nat) (op : operation) (R : multipolygon NQ),
+  complete_sweep cfg op ->
+  boolean_operation cfg fuel A B op = Ok R ->
+  R = trivial_result A B op \/
+  forall P ring, In P R -> In ring (FillQueue.exterior P :: FillQueue.interiors P) ->
+    exists pts, ring = FillQueue.close_ring pts /\
+      forall l1 p q l2, pts = l1 ++ p :: q :: l2 -> on_input_edge (ops_edges A B) p q.
+Proof. exact exact_result_edges. Qed.
+
+Theorem C04_on_input_edge_unfold :
+  forall (edges : list edge) (p q : pt NQ), on_input_edge edges p q <->
+  exists ax ay bx by_ subj px py qx qy,
+    In (ax, ay, (bx, by_), subj) edges /\ p = IntersectProofs.fpt px py /\ q = IntersectProofs.fpt qx qy /\
+    SplitCover.on_seg ax ay bx by_ px py /\ SplitCover.on_seg ax ay bx by_ qx qy.
+Proof. exact (fun edges p q => conj (fun H => H) (fun H => H)). Qed.
+
+(** the contour stage alone, every instance: consecutive contour points are the two ends of a
+    selected event pair (the first up to [pt_eq]) *)
+From GB Require Import Connect ContourEdges.
+Theorem C04_contour_edges_are_subsegments :
+  forall (N : Num) (cfg : config) (fuel : nat) (st : store N) (evs : list eid) (st' : store N)
+         (res : list eid) (cs : list (contour N)),
+  NoDup evs -> paired N st (filter (in_result_filter st) evs) ->
+  connect_edges cfg fuel st evs = Ok (st', res, cs) ->
+  forall c l1 p q l2, In c cs -> c_points c = l1 ++ p :: q :: l2 ->
+  exists i o x, In i evs /\ in_result_filter st i = true /\ e_other (getE st i) = Some o /\
+    pt_eq x p = true /\ pt_eq x (e_point (getE st i)) = true /\ q = e_point (getE st o).
+Proof. exact contour_edges_are_subsegments. Qed.
